@@ -64,7 +64,7 @@ CLAIMED = {
 NOT_APPLICABLE = {
     'C15': 'literals, CTAD and constant<>-driven deduction exist only at compile time: clang folds them, the IR holds only the resulting constant, so there is no function to put a contract on (the run-time parse() algorithm is checked, bounded, under the C15 claim)',
     'C17': 'the mediant search is an unbounded loop whose exit and integer intermediates are controlled by floating-point comparisons, divisions and products; no inductive argument within CBMC\'s bit-level float encoding, unrolling is beyond every back end here; long double inputs are x87',
-    'C20': 'the accuracy bound is against a transcendental function: only an extensional table spec is possible (8/16-bit), not built; the constants are closed compile-time terms with no inputs',
+    'C20': 'the accuracy bound is against a transcendental function: only an extensional table spec is possible; it was built (specs/attic) and measured -- one postcondition of the int8 instantiation took 375 s and 23 GB, the 16-bit instantiation ran out of memory -- so it is not registered; the constants are closed compile-time terms with no inputs',
 }
 
 
